@@ -27,13 +27,42 @@ func c14Chunk(e *Env) {
 		return
 	}
 	isParse := func(f *types.Func) bool { return esp.Is(f, pkgUtils, "", "ParseChunkSize") }
-	var fns []*core.FuncInfo
-	for _, fi := range funcsCalling(w, isParse) {
-		if rn := recvNamed(fi.Obj); rn != nil && rn.Obj().Name() == "bodyStream" {
+	// the methods analysed are the entry points: body-stream methods that reach a chunk-size
+	// parse directly or through a helper method of the type, and that no other such method
+	// calls (a helper is explored inline from its caller, where the boundary test sits)
+	var cands, fns []*core.FuncInfo
+	var reachesParse func(fi *core.FuncInfo, depth int) bool
+	reachesParse = func(fi *core.FuncInfo, depth int) bool {
+		if len(funcsCallingIn(fi, isParse)) > 0 {
+			return true
+		}
+		if depth >= 2 {
+			return false
+		}
+		for _, c := range funcsCallingIn(fi, func(f *types.Func) bool { rn := recvNamed(f); return rn != nil && rn.Obj().Name() == "bodyStream" }) {
+			if d := w.DeclOf(calleeOf(fi.Pkg.TypesInfo, c)); d != nil && d != fi && d.Decl.Body != nil && reachesParse(d, depth+1) {
+				return true
+			}
+		}
+		return false
+	}
+	for _, fi := range declaredNonTest(w) {
+		if rn := recvNamed(fi.Obj); rn != nil && rn.Obj().Name() == "bodyStream" && fi.Decl.Body != nil && fi.Pkg.PkgPath == pkgExt && reachesParse(fi, 0) {
+			cands = append(cands, fi)
+		}
+	}
+	for _, fi := range cands {
+		inner := false
+		for _, o := range cands {
+			if o != fi && len(funcsCallingIn(o, func(f *types.Func) bool { return f == fi.Obj })) > 0 {
+				inner = true
+			}
+		}
+		if !inner {
 			fns = append(fns, fi)
 		}
 	}
-	r.Floor(rule, len(fns), 2, "body-stream methods parsing chunk sizes")
+	r.Floor(rule, len(fns), 2, "body-stream entry methods parsing chunk sizes")
 	for _, fi := range fns {
 		info := fi.Pkg.TypesInfo
 		fname := w.FuncName(fi.Obj)
